@@ -203,6 +203,7 @@ func c13multi(c *Ctx) {
 			})
 		})
 	}
+	c.R.Probe("multi-WriteSyncer built by " + []string{"NewMultiWriteSyncer", "CombineWriteSyncers", "zap.Open"}[via])
 	c.Describe("member=multi sinks=%d payload=%d vectors=%d exhaustive=%v shape=%d built-by=%s", k, plen, vectors, enumerate, shape, []string{"NewMultiWriteSyncer", "CombineWriteSyncers", "zap.Open"}[via])
 	c.Nontrivial = true
 	for v := 0; v < vectors; v++ {
@@ -580,6 +581,7 @@ func c13lockBuffered(c *Ctx) {
 		}
 	}
 	c.Describe("member=lock-over-buffered size=%d tasks=%d frag=%d progs=%v policy=%s", size, nTasks, sink.Frag, progs, r.Policy)
+	c.R.Probe("member lock-over-buffered")
 	accepted := make([][]byte, nTasks)
 	for t := range progs {
 		t := t
